@@ -1,5 +1,8 @@
 import NssVerif.RealInst
 import NssVerif.Model.Geometry
+import NssVerif.Gen.Src.C01
+import NssVerif.Gen.Src.C02
+import NssVerif.Gen.Src.C03
 import NssVerif.Lemmas.Cubic
 import NssVerif.Lemmas.SamplingLaw
 import NssVerif.Lemmas.Unbiased
@@ -576,5 +579,57 @@ example (u2 u3 : ℝ) :
     0 < (throw1 (geomInit exampleCfg) (1 / 2) u2 u3 (1 / 2)).costhetaNSubV
     ∧ 0 < (throw1 (geomInit exampleCfg) (1 / 2) u2 u3 (1 / 2)).costhetaTrSubV := by
   exact exampleCfg_valid.guards (by norm_num) (by norm_num) (by norm_num) (by norm_num)
+
+/-! ### source tie: the functions translated from the Python source of the working tree ARE the model
+
+`Gen/Src/C01.lean` (`RegionGeom.__init__`), `Gen/Src/C02.lean` (`RegionGeom.throw`) and `Gen/Src/C03.lean`
+(`RegionGeom.mcintegral`, reductions split) are regenerated from `region_geometry.py` on every run (harness/pytrans.py,
+specs harness/srcspecs/C01.py, C02.py, C03.py).  The equalities below hold by unfolding alone, for every `Scalar` instance —
+over ℝ (what the theorems above are about) and at `Float` (what the driver executes): the model has the operation order of
+the source, `x**k` of the 0-d constants is libm `pow` on both sides, `np.reciprocal x` is `1.0 / x` on both sides.  Hence
+`geomInit cfg`, `throw1 (geomInit cfg) u1 u2 u3 u4` and `geoWeight` in the theorems above are what the constructor, `throw`
+and `mcintegral` compute now, as functions of the six configuration numbers and the four uniform numbers.
+Not translated: `np.sum` over the events (modelled by `Scalar.sum`; tied by the differential runs). -/
+
+/-- the model's constants as the structure of what `RegionGeom.__init__` stores (the source's attribute names) and of the
+locals the model keeps (horizon angle, minimal nadir angle, the four density normalisations and their product) -/
+def constsAsStored {α : Type} (c : Consts α) : Gen.Src.C01.InitOut α :=
+  { earth_radius := c.R, earth_rad_2 := c.R2, core_alt := c.D, minLOSpathLen := c.Lmin, maxLOSpathLen := c.Lmax,
+    sinOfMaxThetaTrSubV := c.sinMax, maxPhiS := c.maxPhiS, minPhiS := c.minPhiS, mcnorm := c.mcnorm, detLat := c.detLat,
+    detLong := c.detLong, alphaHorizon := c.alphaHorizon, alphaMin := c.alphaMin, normThetaTrSubV := c.normThetaTrSubV,
+    normPhiTrSubV := c.normPhiTrSubV, normPhiS := c.normPhiS, normThetaS := c.normThetaS, pdfnorm := c.pdfnorm }
+
+/-- `RegionGeom.__init__` as translated from the source, as a function of (altitude, limb angle, maximal Cherenkov angle,
+azimuth range, detector latitude, longitude), computes exactly the model's `geomInit`: sampling limits, the four density
+normalisations, their product and `mcnorm` -/
+theorem src_init {α : Type} [Scalar α] (cfg : Cfg α) :
+    Gen.Src.C01.init cfg.alt cfg.limb cfg.maxCher cfg.maxAzi cfg.lat cfg.long = constsAsStored (geomInit cfg) := rfl
+
+/-- constructor and `throw` chained, both as translated from the source: the event thrown from `(u1,u2,u3,u4)` on an object
+built from the configuration is field by field the model's `throw1 (geomInit cfg) u1 u2 u3 u4` -/
+theorem src_init_throw {α : Type} [Scalar α] (cfg : Cfg α) (u1 u2 u3 u4 : α) :
+    let k := Gen.Src.C01.init cfg.alt cfg.limb cfg.maxCher cfg.maxAzi cfg.lat cfg.long
+    let e := throw1 (geomInit cfg) u1 u2 u3 u4
+    Gen.Src.C02.throw u1 u2 u3 u4 k.sinOfMaxThetaTrSubV k.maxPhiS k.minPhiS k.core_alt k.earth_rad_2 k.maxLOSpathLen
+        k.minLOSpathLen k.earth_radius k.detLat k.detLong
+      = { thetaTrSubV := e.thetaTrSubV, costhetaTrSubV := e.costhetaTrSubV, phiTrSubV := e.phiTrSubV, phiS := e.phiS,
+          losPathLen := e.losPathLen, thetaS := e.thetaS, costhetaNSubV := e.costhetaNSubV,
+          costhetaTrSubN := e.costhetaTrSubN, thetaTrSubN := e.thetaTrSubN, betaTrSubN := e.betaTrSubN, latS := e.latS,
+          longS := e.longS, elevAngVSubN := e.elevAngVSubN, aziAngVSubN := e.aziAngVSubN, event_mask := e.eventMask } := rfl
+
+/-- the geometry-only per-event term of `RegionGeom.mcintegral` as translated from the source (the term under its first
+`np.sum`) is the model's `geoWeight` of a kept event; the trigger / spectrum arguments do not enter it -/
+theorem src_geoWeight {α : Type} [Scalar α] (e : Event α) (hk : e.eventMask = true)
+    (trig ct pexit thr sn ss mcnorm n s0 s1 v0 c0 : α) :
+    (Gen.Src.C03.mcDiffuse trig ct pexit thr sn ss e.costhetaTrSubN e.costhetaNSubV e.costhetaTrSubV e.eventMask
+        mcnorm n s0 s1 v0 c0).sum0Arg = geoWeight e ct := by
+  unfold geoWeight; rw [hk]; rfl
+
+/-- the geometry-only return value of `RegionGeom.mcintegral` as translated from the source, with the sum of the per-event
+terms put in for the reduced input and `len(betaTrSubN)` = number thrown, is the model's `mcintegralGeo` -/
+theorem src_mcintegralGeo {α : Type} [Scalar α] (c : Consts α) (es : List (Event α)) (ct : α)
+    (trig cEff pexit thr sn ss a b d s1 v0 c0 : α) (m : Bool) :
+    (Gen.Src.C03.mcDiffuse trig cEff pexit thr sn ss a b d m c.mcnorm (Scalar.ofNat es.length)
+        (Scalar.sum (es.map fun e => geoWeight e ct)) s1 v0 c0).ret1 = mcintegralGeo c es ct := rfl
 
 end C01
